@@ -731,6 +731,78 @@ func c03DefinePureDrop(c *Check, pool *NodePool) {
 	}}
 	x := &xrunner{c: c, cfgs: append([]xcfg{{"none", api.TransformOptions{}}}, c03Cfgs...), pool: pool, calls: xCallsStd, noNames: true, classify: c03Classify, keyPrefix: "opt:"}
 	x.runSpace(&xspace{segs: []xseg{seg}})
+	c03OptionHistories(c)
+}
+
+// c03OptionHistories: define / pure / drop settings of one build must not leak into later builds of the same process
+// (the processed tables of known globals are cached process-wide). Explicit-state search over option histories: every
+// sequence of <= 2 (thorough 3) option sets from a 12-letter alphabet, the probe program compiled after every step; the
+// output for an option set must always equal the output first seen for that option set.
+func c03OptionHistories(c *Check) {
+	probe := "console.log(Math.random() < 2 ? Object.keys({a: 1}).length : 0);\nfunction probe() { console.log('p'); PF(1); Math.random(); Object.keys({}); JSON.stringify(1); return [DEF_N, typeof process.env.NODE_ENV] }\nMath.random(); Object.keys({}); Symbol.for('x'); console.log(probe());\n"
+	alphabet := []struct {
+		name string
+		mod  func(o *api.TransformOptions)
+	}{
+		{"none", func(o *api.TransformOptions) {}},
+		{"pure:console.log", func(o *api.TransformOptions) { o.Pure = []string{"console.log"} }},
+		{"pure:Math.random", func(o *api.TransformOptions) { o.Pure = []string{"Math.random"} }},
+		{"pure:Object.keys+JSON.stringify", func(o *api.TransformOptions) { o.Pure = []string{"Object.keys", "JSON.stringify"} }},
+		{"pure:PF", func(o *api.TransformOptions) { o.Pure = []string{"PF"} }},
+		{"define:console.log", func(o *api.TransformOptions) { o.Define = map[string]string{"console.log": "noop"} }},
+		{"define:Math.random", func(o *api.TransformOptions) { o.Define = map[string]string{"Math.random": "rnd"} }},
+		{"define:process.env.NODE_ENV", func(o *api.TransformOptions) { o.Define = map[string]string{"process.env.NODE_ENV": "\"production\""} }},
+		{"define:DEF_N+Symbol.for", func(o *api.TransformOptions) { o.Define = map[string]string{"DEF_N": "5", "Symbol.for": "sf"} }},
+		{"drop:console", func(o *api.TransformOptions) { o.Drop = api.DropConsole }},
+		{"minify-syntax-off", func(o *api.TransformOptions) { o.MinifySyntax = false }},
+		{"platform-node", func(o *api.TransformOptions) { o.Platform = api.PlatformNode }},
+	}
+	first := map[string]string{}
+	compile := func(i int, history []int) {
+		o := api.TransformOptions{MinifySyntax: true}
+		alphabet[i].mod(&o)
+		out, ok, errs := transformJS(probe, o)
+		c.Eval(1)
+		if !ok {
+			out = "ERROR " + jsonStr(errs)
+		}
+		c.Distinct(out)
+		want, seen := first[alphabet[i].name]
+		if !seen {
+			first[alphabet[i].name] = out
+			return
+		}
+		if out != want {
+			var names []string
+			for _, h := range history {
+				names = append(names, alphabet[h].name)
+			}
+			c.Violation("option-history:"+alphabet[i].name+":after:"+strings.Join(names, ","), map[string]interface{}{"kind": "the output for an option set depends on the option sets of earlier builds in the same process",
+				"options": alphabet[i].name, "history": names, "first_output": want, "output": out})
+		}
+	}
+	depth := 2
+	if c.Tier != "quick" {
+		depth = 3
+	}
+	var rec func(history []int)
+	rec = func(history []int) {
+		if len(history) > 0 {
+			last := history[len(history)-1]
+			compile(last, history[:len(history)-1])
+			// after every step also the build without settings
+			compile(0, history)
+		}
+		if len(history) == depth {
+			return
+		}
+		for i := range alphabet {
+			rec(append(append([]int{}, history...), i))
+		}
+	}
+	compile(0, nil)
+	rec(nil)
+	c.Sub("option_histories", 1)
 }
 
 // c03Classify maps a mismatch to a known-finding key when it is exactly the documented-in-
